@@ -240,6 +240,20 @@ pub fn eval_c08_seq_fault(case: &Case) -> Outcome {
     outcome(&h, verdict, fired, classes)
 }
 
+/// Body of the ThreadSanitizer stage of C07 (runs inside the TSan-built child): real threads, joined; the
+/// sanitizer is the oracle for "no data race on non-atomic shared state"; duplicates are checked on the side.
+pub fn eval_c07_real(case: &Case) -> Outcome {
+    let h = crate::real::run_real(case);
+    let verdict = panic_guard(&h).and_then(|_| oracle::no_duplicates(&h));
+    let chunky = h.ops.iter().any(|o| matches!(o.tag, Tag::Chunk { .. } | Tag::BufNext { .. }));
+    let skip = h.ops.iter().any(|o| o.tag == Tag::Skip);
+    let mut classes = vec![kind_class(case.kind), "real-threads"];
+    if skip {
+        classes.push("skip");
+    }
+    outcome(&h, verdict, case.threads.len() >= 2 && chunky, classes)
+}
+
 pub fn eval_c08_real(case: &Case) -> Outcome {
     let h = crate::real::run_real(case);
     let verdict = panic_guard(&h).and_then(|_| oracle::c08_exactly_once_ownership(&h));
@@ -495,7 +509,7 @@ pub fn assumptions_common() -> Vec<String> {
 pub fn check(ctx: &mut Ctx) -> Option<Meta> {
     let thorough = ctx.tier == "thorough";
     #[cfg(orx_concurrent_iter_verif)]
-    if matches!(ctx.prop.as_str(), "C08" | "C10" | "C13") {
+    if matches!(ctx.prop.as_str(), "C07" | "C08" | "C10" | "C13") {
         // second half of a two-binary property: the schedule-engine campaigns
         return crate::props_sched::check(ctx);
     }
@@ -706,6 +720,42 @@ pub fn check(ctx: &mut Ctx) -> Option<Meta> {
                 assumptions: a,
             })
         }
+        "C07" => {
+            // plain-flavour half of C07: real threads under ThreadSanitizer (the schedule-engine half ran before)
+            if !crate::twin::tsan_binary().exists() {
+                println!("note: the ThreadSanitizer build of the harness is not available; the real-thread race stage of C07 is skipped");
+                return Some(Meta { level: "exploration", rule: String::new(), assumptions: assumptions_common() });
+            }
+            let tsan = |c: &Case| crate::twin::judge_under_tsan("C07", "real", c);
+            crate::replay::replay_saved(ctx, "real", &tsan);
+            let mut cfg = GenCfg::base(ALL_KINDS);
+            cfg.kinds.extend_from_slice(CONSUMING);
+            cfg.kinds.extend_from_slice(CONSUMING);
+            cfg.max_len = 1500;
+            cfg.min_threads = 2;
+            cfg.max_threads = 4;
+            cfg.max_ops = 5;
+            cfg.w_skip = 2;
+            cfg.w_len = 1;
+            cfg.w_drain_elem = 6;
+            cfg.w_drain_composite = 2;
+            cfg.w_chunk = 6;
+            cfg.w_bufnext = 6;
+            cfg.extra_cap = true;
+            cfg.terminal_mode = 2;
+            cfg.odd_ranges = false;
+            let rule = "real-thread stage: generated multi-threaded programs (2-4 OS threads, sources of up to 1500 elements so that the threads overlap, chunk / buffered / single pulls, drains, skip_to_end) are executed by a child process built with -Zsanitizer=thread; oracle: no ThreadSanitizer data-race report (and no duplicate delivery); non-trivial = >=2 threads with a chunk or buffered pull".to_string();
+            ctx.run_campaign(&Campaign {
+                name: "real-tsan".into(),
+                cases: scale_cases(ctx, 30_000, 20),
+                make_strategy: &|| case_strategy(&cfg),
+                run: &tsan,
+                rule: rule.clone(),
+            });
+            let mut a = assumptions_common();
+            a.push("ThreadSanitizer sees the accesses of one OS-scheduled execution per case; it reports a race only if both accesses occur in that execution (happens-before based, no exact timing needed)".into());
+            Some(Meta { level: "exploration", rule, assumptions: a })
+        }
         "C15" => {
             crate::replay::replay_saved(ctx, "seq", &eval_c15_seq);
             crate::replay::replay_saved(ctx, "real", &eval_c15_real);
@@ -771,6 +821,7 @@ pub fn eval_for(prop: &str, engine: &str) -> Option<fn(&Case) -> Outcome> {
         ("C08", "real") => Some(eval_c08_real),
         ("C08", "seqfault") => Some(eval_c08_seq_fault),
         ("C15", "real") => Some(eval_c15_real),
+        ("C07", "real") => Some(eval_c07_real),
         ("C16", _) => Some(crate::c16::eval_c16),
         ("C14", _) => Some(eval_c14_seq),
         ("C13", _) => Some(crate::lockstep::eval_c13),
